@@ -300,13 +300,13 @@ func init() {
 		// the credit service: records the request; reachable, slow or down = arbitrary error result
 		posts, _ := e.ext["ncs.posts"].([]Value)
 		e.ext["ncs.posts"] = append(posts, copyVal(args[2]))
+		// whether the n-th request fails (after the service has received it) is the harness's choice
+		// (verifnd.NCSFail), so that the native recording endpoint can follow the same plan
 		n := len(posts)
-		okv := e.C.Var(fmt.Sprintf("ncs_ok!%d", n), BoolSort)
-		e.S.Declare(okv)
-		if e.Branch(okv) {
-			return &IfaceV{}, false
+		if fails, _ := e.ext["ncs.fail"].(map[int]bool); fails[n] {
+			return &IfaceV{Typ: errType(e), Val: &OpaqueV{Tag: "err:credit service unreachable"}}, false
 		}
-		return &IfaceV{Typ: errType(e), Val: &OpaqueV{Tag: "err:credit service unreachable"}}, false
+		return &IfaceV{}, false
 	})
 	reg("github.com/ethereum/go-ethereum/common/hexutil.Encode", func(e *Exec, fv *FuncV, args []Value, cc *ssa.CallCommon) (Value, bool) {
 		return e.C.App("hex!", IntSort, e.bytesCode(args[0])), false
